@@ -173,7 +173,12 @@ impl EventLoop {
                 self.keepalive_timeout = Some(Box::pin(time::sleep(self.mqtt_options.keep_alive)));
             }
 
-            return Ok(Event::Incoming(Packet::ConnAck(connack)));
+            // notifications of packets received on the previous connection may still be queued:
+            // the connack of this connection comes after them
+            self.state
+                .events
+                .push_back(Event::Incoming(Packet::ConnAck(connack)));
+            return Ok(self.state.events.pop_front().unwrap());
         }
 
         match self.select().await {
